@@ -22,7 +22,7 @@ from fractions import Fraction as F
 import numpy as np
 
 PROP = 'C03'
-TARGETS = ['T2', 'T3', 'TC03pyr', 'TC03stack', 'TC03segvol', 'TC03imgvol', 'TC03wireV', 'TC03wireI']
+TARGETS = ['T2', 'T3', 'TC03pyr', 'TC03stack', 'TC03segvol', 'TC03imgvol', 'TC03wireV', 'TC03wireI', 'TC03wireS']
 LEAN_MODULES = ['HdVerif.Props.C03']
 MODEL_MODULES = ['HdVerif.Model.SegGeom']
 NAMESPACE = 'HdVerif.C03'
@@ -32,7 +32,9 @@ RULE = ('streams: vol = Segmentation(pixel_array=Volume) with a random admissibl
         'pattern; src = arrays aligned to a CT series / enhanced multi-frame image given in a random slice order; img = '
         'Image.get_volume of stacks and tiled slides; tiled = tiled segmentations (from arrays and from SLIDE volumes); '
         'sub = sub-volume requests (slice/row/column start/end, 1-based, 0-based, negative, out of range); pyr = pyramids '
-        '(mask rank 2/3/4, factor lists, several pixel arrays).  One case = one (object, read call).  Non-trivial = accepted '
+        '(mask rank 2/3/4, factor lists, several pixel arrays); place = planes placed explicitly (plane_positions + plane_orientation '
+        '+ pixel_measures with / without SpacingBetweenSlices, mostly not parallel to the sources, omission leaving non-adjacent '
+        'planes); tiledpos = tiled segmentations placed by the user at the source origin or off it in exactly one coordinate.  One case = one (object, read call).  Non-trivial = accepted '
         'read of an object with at least one non-empty plane, distinct by (stream, direction, handedness, shape, options, '
         'request).')
 ASSUMPTIONS = [
@@ -638,18 +640,19 @@ def _guard(ctx, descr, fn, *a):
 
 
 def run_vol(ctx, reqs, pending):
-    n_cases = ctx.n(400, 4000)
+    n_cases = ctx.n(300, 4000)
     for idx in range(n_cases):
         descr, g, arr, mk = build_vol_case(ctx, idx)
         _guard(ctx, descr, check_vol_case, ctx, descr, g, arr, mk, reqs, pending)
 
 
 def check_vol_case(ctx, descr, g, arr, mk, reqs, pending):
-    r = ctx.rng('volreq', descr['idx'])
+    r = ctx.rng(descr['stream'] + 'req', descr['idx'])
     shape = tuple(descr['shape'])
     nseg, layout, seg_type, exact = descr['nseg'], descr['layout'], descr['type'], descr['exact']
     st, seg = _fetch(mk)
-    hkey = dict(stream='vol', type=seg_type, omit=descr['omit'], empties=descr['empties'], handed=descr['h'],
+    hkey = dict(stream=descr['stream'], type=seg_type, omit=descr['omit'], empties=descr['empties'], handed=descr['h'],
+                with_sbs=descr.get('with_sbs'), parallel_to_source=descr.get('parallel_to_source'),
                 exact=exact, layout=layout, n0=shape[0], memory=descr.get('memory'), type_spelling=descr.get('type_spelling'),
                 square=shape[1] == shape[2])
     if st != 'ok':
@@ -677,11 +680,21 @@ def check_vol_case(ctx, descr, g, arr, mk, reqs, pending):
             ctx.fail(descr, {'what': 'stored ImagePositionPatient set differs from the positions of the (non-empty) input planes',
                              'stored': sorted([[float(x) for x in p] for p in stored_pos]),
                              'want': sorted([[float(x) for x in p] for p in want_pos])}, site='stored-positions')
-        if iop != rowcos + colcos or psx != list(ps) or sbs != g['s'][0]:
+        explicit = descr.get('placement') == 'explicit'
+        want_sbs = g['s'][0] if (not explicit or descr.get('with_sbs') or shape[0] > 1) else F(1)
+        if iop != rowcos + colcos or psx != list(ps) or sbs != want_sbs:
             ctx.fail(descr, {'what': 'stored orientation / pixel measures differ from the volume',
                              'iop': [float(x) for x in iop], 'ps': [float(x) for x in psx], 'sbs': None if sbs is None else float(sbs)},
                      site='stored-measures')
-        reqs.append(model_store_req(g, shape[0], included, flags=[bool(arr[k].any()) for k in range(shape[0])], omit=descr['omit']))
+        if explicit:
+            # placement handed over as plane_positions / plane_orientation / pixel_measures: the constructor infers the slice
+            # spacing from ALL plane positions with the segmentation's own orientation unless the measures carry one
+            reqs.append(('storeAligned', {'iop': [rstr(x) for x in rowcos + colcos], 'ps': [rstr(x) for x in ps],
+                                          'src_hint': rstr(g['s'][0]) if descr.get('with_sbs') else None,
+                                          'all_pos': [[rstr(x) for x in apply_aff(a, (k, 0, 0))] for k in range(shape[0])],
+                                          'kept': list(included)}))
+        else:
+            reqs.append(model_store_req(g, shape[0], included, flags=[bool(arr[k].any()) for k in range(shape[0])], omit=descr['omit']))
         pending.append((dict(descr, what='stored positions/orientation/measures', layer='L1'),
                         ('ok', {'pos': [[rstr(x) for x in p] for p in sorted(stored_pos)], 'iop': [rstr(x) for x in iop],
                                 'ps': [rstr(x) for x in psx], 'sbs': rstr(sbs) if sbs is not None else None})))
@@ -696,7 +709,7 @@ def check_vol_case(ctx, descr, g, arr, mk, reqs, pending):
             continue
         stv, v = _fetch(seg.get_volume, **kw)
         ctx.case(sample=descr if ctx.evaluations % 211 == 0 else None,
-                 nontrivial_key=('vol', descr['dir'], tuple(shape), seg_type, descr['omit'], descr['empties'], layout, label)
+                 nontrivial_key=(descr['stream'], descr['dir'], tuple(shape), seg_type, descr['omit'], descr['empties'], layout, label, descr.get('with_sbs'))
                  if (stv == 'ok' and nonempty) else None, read=label, outcome='ok' if stv == 'ok' else 'refused', **hkey)
         if stv != 'ok':
             ctx.fail(dict(descr, read=label), f'get_volume refused: {v}', site='get_volume')
@@ -714,11 +727,12 @@ def check_vol_case(ctx, descr, g, arr, mk, reqs, pending):
                                                'shapes': [list(v.spatial_shape), list(geom.spatial_shape)]},
                      site='get_volume-vs-geometry')
         # explicit handedness clause: right-handed input with no trimmed end planes reads back identically
-        if exact and g['h'] == 1 and len(included) and included[0] == 0 and included[-1] == shape[0] - 1:
+        known_spacing = not (descr.get('placement') == 'explicit' and shape[0] == 1 and not descr.get('with_sbs'))
+        if exact and known_spacing and g['h'] == 1 and len(included) and included[0] == 0 and included[-1] == shape[0] - 1:
             if not np.array_equal(v.affine, affine_of(g)) or not np.array_equal(out, lab if cmp_ == 'lab' else cha):
                 ctx.fail(dict(descr, read=label), 'right-handed input does not read back as the same array and affine',
                          site='get_volume/identity')
-        if exact and g['h'] == -1 and len(included) and included[0] == 0 and included[-1] == shape[0] - 1:
+        if exact and known_spacing and g['h'] == -1 and len(included) and included[0] == 0 and included[-1] == shape[0] - 1:
             mirror = affine_of(g)
             mirror[:3, 3] = mirror[:3, 3] + (shape[0] - 1) * mirror[:3, 0]
             mirror[:3, 0] = -mirror[:3, 0]
@@ -735,7 +749,7 @@ def check_vol_case(ctx, descr, g, arr, mk, reqs, pending):
                         dict(descr, read=label, what='get_volume affine/shape/placement', layer='L0'), impl_volume_obs(stv, v),
                         assemble_check(seg, frames, v.array, seg_type) if label == 'combined' else None)
     # ---- several reads on the one object, and the object after a bytes round trip
-    rv = ctx.rng('volvar2', descr['idx'])
+    rv = ctx.rng(descr['stream'] + 'var2', descr['idx'])
     if full is not None:
         repeated_reads(ctx, descr, seg, seg.get_volume, full_kw, full, rv, 'get_volume')
     roundtrip_seg_checks(ctx, descr, seg, rv, planes_lab, planes_cha, overlap, rowcos, colcos, ps, exact, seg_type, geom, 'get_volume')
@@ -749,7 +763,7 @@ def check_vol_case(ctx, descr, g, arr, mk, reqs, pending):
             req = req0
             valid = all(e is not None for e in exp)
             ctx.case(nontrivial_key=('volsub', tuple(full.spatial_shape), tuple(sorted(req.items()))) if (valid and stv == 'ok') else None,
-                     stream='vol/sub', request_valid=valid, outcome='ok' if stv == 'ok' else 'refused',
+                     stream=descr['stream'] + '/sub', request_valid=valid, outcome='ok' if stv == 'ok' else 'refused',
                      as_indices=req['as_indices'], request_axes=''.join(ax[0] for ax in ('slice', 'row', 'column')
                                                                         if ax + '_start' in req or ax + '_end' in req))
             if exact:
@@ -757,6 +771,73 @@ def check_vol_case(ctx, descr, g, arr, mk, reqs, pending):
                             dict(descr, request=req, what='get_volume(sub) affine/shape/placement', layer='L0'),
                             impl_volume_obs(stv, sub),
                             assemble_check(seg, frames, sub.array, seg_type) if (stv == 'ok' and 'combine_segments' in full_kw) else None)
+
+
+# ---------------------------------------------------------------------------------------------- stream: place (explicit placement)
+def build_place_case(ctx, idx):
+    """Planes placed explicitly: plane_positions + plane_orientation + pixel_measures (with or WITHOUT SpacingBetweenSlices),
+    orientation in general not parallel to the source images, omission patterns that leave only non-adjacent planes."""
+    import highdicom as hd
+    from gen.sources import ct_series, seg_description
+    r = ctx.rng('place', idx)
+    nr = ctx.np_rng('placepix', idx)
+    g = rand_geom(r)
+    shape = (r.choice([1, 2, 3, 4, 5, 5, 6, 7, 9]), r.randint(1, 5), r.randint(1, 5))
+    n0 = shape[0]
+    seg_type = r.choice(['BINARY', 'LABELMAP', 'LABELMAP', 'FRACTIONAL'])
+    nseg = r.choice([1, 2])
+    layout = 'label'
+    omit = r.random() < 0.8
+    mode = r.choice(['none', 'alternate', 'alternate', 'every-third', 'ends-only', 'random', 'irregular-sparse'])
+    if mode == 'none':
+        keep = set(range(n0))
+    elif mode == 'alternate':
+        off = r.randrange(2)
+        keep = {k for k in range(n0) if k % 2 == off} or {0}
+    elif mode == 'every-third':
+        off = r.randrange(3)
+        keep = {k for k in range(n0) if k % 3 == off} or {0}
+    elif mode == 'ends-only':
+        keep = {0, n0 - 1}
+    elif mode == 'random':
+        keep = {k for k in range(n0) if r.random() < 0.5} or {r.randrange(n0)}
+    else:
+        keep = {0, 2, 5} & set(range(n0)) or {0}           # gaps 2 and 3: no common grid finer than the true spacing
+    empties = set(range(n0)) - keep
+    arr = rand_mask(r, nr, shape, nseg, layout, empties)
+    with_sbs = r.random() < 0.4
+    # source series: axial, same number of planes and frame size (what the constructor may compare with)
+    src = ct_series(n0, shape[1], shape[2], slice_spacing=2.5)
+    a = affine_of(g)
+    geom = hd.VolumeGeometry(a, shape, 'PATIENT', frame_of_reference_uid=src[0].FrameOfReferenceUID)
+    n = [g['d'][i][0] for i in range(3)]
+    parallel = n[0] == 0 and n[1] == 0
+    rv = ctx.rng('placevar', idx)
+    mem = rv.choice(LAYOUTS)
+    passed = relayout(arr, mem)
+    typ, typ_spell = spell_type(rv, seg_type)
+    descr = {'stream': 'place', 'idx': idx, 'seed': ctx.seed, 'dir': g['label'], 'h': g['h'], 'exact': g['exact'],
+             'shape': list(shape), 'spacing': [rstr(x) for x in g['s']], 'position': [rstr(x) for x in g['p']],
+             'type': seg_type, 'nseg': nseg, 'layout': layout, 'omit': omit, 'empties': mode, 'empty_planes': sorted(empties),
+             'memory': mem, 'type_spelling': typ_spell, 'placement': 'explicit', 'with_sbs': with_sbs,
+             'parallel_to_source': parallel}
+
+    def mk():
+        pm = hd.PixelMeasuresSequence(pixel_spacing=geom.pixel_spacing, slice_thickness=geom.spacing_between_slices,
+                                      spacing_between_slices=geom.spacing_between_slices if with_sbs else None)
+        seg = hd.seg.Segmentation(src, passed, typ, [seg_description(i + 1) for i in range(nseg)], omit_empty_frames=omit,
+                                  plane_positions=geom.get_plane_positions(), plane_orientation=geom.get_plane_orientation(),
+                                  pixel_measures=pm, **_seg_kw())
+        if not np.array_equal(passed, arr):
+            raise AssertionError('the constructor modified the pixel array it was given')
+        return seg
+    return descr, g, arr, mk
+
+
+def run_place(ctx, reqs, pending):
+    for idx in range(ctx.n(150, 1500)):
+        descr, g, arr, mk = build_place_case(ctx, idx)
+        _guard(ctx, descr, check_vol_case, ctx, descr, g, arr, mk, reqs, pending)
 
 
 # ---------------------------------------------------------------------------------------------- stream: src (aligned to sources)
@@ -830,7 +911,7 @@ def build_src_case(ctx, idx):
 
 
 def run_src(ctx, reqs, pending):
-    for idx in range(ctx.n(300, 2500)):
+    for idx in range(ctx.n(200, 2500)):
         descr, geo, arr, mk, src = build_src_case(ctx, idx)
         _guard(ctx, descr, check_src_case, ctx, descr, geo, arr, mk, src, reqs, pending)
 
@@ -1007,7 +1088,7 @@ def build_img_case(ctx, idx):
 
 
 def run_img(ctx, reqs, pending):
-    for idx in range(ctx.n(250, 2000)):
+    for idx in range(ctx.n(200, 2000)):
         descr, geo, shape, mk = build_img_case(ctx, idx)
         _guard(ctx, descr, check_img_case, ctx, descr, geo, shape, mk, reqs, pending)
 
@@ -1157,7 +1238,7 @@ def build_tiled_case(ctx, idx):
 
 
 def run_tiled(ctx, reqs, pending):
-    for idx in range(ctx.n(250, 2000)):
+    for idx in range(ctx.n(200, 2000)):
         descr, geo, mask, mk = build_tiled_case(ctx, idx)
         _guard(ctx, descr, check_tiled_case, ctx, descr, geo, mask, mk, reqs, pending)
 
@@ -1165,9 +1246,10 @@ def run_tiled(ctx, reqs, pending):
 def check_tiled_case(ctx, descr, geo, mask, mk, reqs, pending):
     rowcos, colcos, ps, planes = geo
     exact = descr['exact']
-    r = ctx.rng('tiledreq', descr['idx'])
-    hkey = dict(stream='tiled', type=descr['type'], from_volume=descr['from_volume'], tiled_full=descr['tiled_full'],
-                omit=descr['omit'], exact=exact, memory=descr.get('memory'), option_spelling=descr.get('option_spelling'),
+    r = ctx.rng(descr['stream'] + 'req', descr['idx'])
+    hkey = dict(stream=descr['stream'], type=descr['type'], from_volume=descr['from_volume'], tiled_full=descr['tiled_full'],
+                omit=descr['omit'], exact=exact, placed=descr.get('placed'), origin_delta=descr.get('origin_delta'),
+                same_tile_size=descr.get('same_tile_size'), memory=descr.get('memory'), option_spelling=descr.get('option_spelling'),
                 tile_square=descr['tile'][0] == descr['tile'][1], remainder=str(descr.get('remainder')))
     st, seg = _fetch(mk)
     if st != 'ok':
@@ -1177,8 +1259,8 @@ def check_tiled_case(ctx, descr, geo, mask, mk, reqs, pending):
     kw = dict(combine_segments=True)
     stv, v = _fetch(seg.get_volume, **kw)
     ctx.case(sample=descr if ctx.evaluations % 211 == 0 else None,
-             nontrivial_key=('tiled', descr['dir'], tuple(descr['total']), tuple(descr['tile']), descr['type'], descr['tiled_full'],
-                             descr['omit']) if stv == 'ok' else None, outcome='ok' if stv == 'ok' else 'refused', **hkey)
+             nontrivial_key=(descr['stream'], descr['dir'], tuple(descr['total']), tuple(descr['tile']), descr['type'], descr['tiled_full'],
+                             descr['omit'], descr.get('placed'), descr.get('origin_delta')) if stv == 'ok' else None, outcome='ok' if stv == 'ok' else 'refused', **hkey)
     if stv != 'ok':
         ctx.fail(descr, f'get_volume refused: {v}', site='get_volume/tiled')
         return
@@ -1193,6 +1275,22 @@ def check_tiled_case(ctx, descr, geo, mask, mk, reqs, pending):
     elif tuple(v.spatial_shape) != tuple(geom.spatial_shape) or not np.array_equal(v.affine, geom.affine):
         ctx.fail(descr, {'what': 'volume returned does not have the geometry the image reports',
                          'volume_affine': v.affine.tolist(), 'geometry_affine': geom.affine.tolist()}, site='get_volume-vs-geometry/tiled')
+    # the image must agree with itself: the position recorded for every stored tile is the position its own
+    # (total-pixel-matrix-origin derived) geometry gives the tile's first pixel
+    if stg == 'ok' and geom is not None and 'PerFrameFunctionalGroupsSequence' in seg:
+        ga = frac_affine(geom.affine)
+        tolf = F(0) if exact else F(1, 10 ** 6)
+        for fi, item in enumerate(seg.PerFrameFunctionalGroupsSequence):
+            if 'PlanePositionSlideSequence' not in item:
+                continue
+            pp = item.PlanePositionSlideSequence[0]
+            rec = [fr(pp.XOffsetInSlideCoordinateSystem), fr(pp.YOffsetInSlideCoordinateSystem), fr(pp.ZOffsetInSlideCoordinateSystem)]
+            want = apply_aff(ga, (0, int(pp.RowPositionInTotalImagePixelMatrix) - 1, int(pp.ColumnPositionInTotalImagePixelMatrix) - 1))
+            if not vclose(rec, want, tolf):
+                ctx.fail(dict(descr, frame=fi + 1), {'what': 'position recorded for a tile differs from the position the image\'s own '
+                                                             'geometry gives that tile', 'recorded': [float(x) for x in rec],
+                                                     'geometry': [float(x) for x in want]}, site='tiled/self-consistency')
+                break
     # L1 + model
     org = seg.TotalPixelMatrixOriginSequence[0]
     origin = [fr(org.XOffsetInSlideCoordinateSystem), fr(org.YOffsetInSlideCoordinateSystem),
@@ -1208,12 +1306,18 @@ def check_tiled_case(ctx, descr, geo, mask, mk, reqs, pending):
                      site='stored-measures/tiled')
         reqs.append(model_tiled_req(origin, ios, psx, sbs, descr['total'][0], descr['total'][1], None))
         pending.append((dict(descr, what='tiled get_volume affine/shape', layer='L0'), impl_volume_obs(stv, v)))
+        if descr.get('placed') == 'plane_positions':
+            # user-placed total pixel matrix: which origin the constructor records (translated origin_preserved)
+            reqs.append(('recordedTiledOrigin', {'user': descr['origin'], 'src': descr['source_origin'], 'same_orientation': True,
+                                                 'same_spacing': True, 'same_tiles': bool(descr['same_tile_size'])}))
+            pending.append((dict(descr, what='recorded total-pixel-matrix origin of a user-placed segmentation', layer='L1'),
+                            ('ok', [rstr(x) for x in origin])))
         if descr['from_volume']:
             reqs.append(('storeTiled', {'d': descr['directions'], 's': descr['spacing'], 'p': descr['position']}))
             pending.append((dict(descr, what='stored total-pixel-matrix origin/orientation/measures', layer='L1'),
                             ('ok', {'origin': [rstr(x) for x in origin], 'ios': [rstr(x) for x in ios], 'ps': [rstr(x) for x in psx],
                                     'sbs': None if sbs is None else rstr(sbs)})))
-    rv = ctx.rng('tiledvar2', descr['idx'])
+    rv = ctx.rng(descr['stream'] + 'var2', descr['idx'])
     repeated_reads(ctx, descr, seg, seg.get_volume, kw, v, rv, 'get_volume/tiled')
     roundtrip_seg_checks(ctx, descr, seg, rv, planes, planes, False, rowcos, colcos, ps, exact, descr['type'],
                          geom if stg == 'ok' else None, 'get_volume/tiled')
@@ -1232,10 +1336,73 @@ def check_tiled_case(ctx, descr, geo, mask, mk, reqs, pending):
         req = req0
         valid = all(e is not None for e in exp)
         ctx.case(nontrivial_key=('tiledsub', tuple(v.spatial_shape), tuple(sorted(req.items()))) if (valid and sts == 'ok') else None,
-                 stream='tiled/sub', request_valid=valid, outcome='ok' if sts == 'ok' else 'refused', as_indices=req['as_indices'])
+                 stream=descr['stream'] + '/sub', request_valid=valid, outcome='ok' if sts == 'ok' else 'refused', as_indices=req['as_indices'])
         if exact:
             reqs.append(model_tiled_req(origin, ios, psx, sbs, descr['total'][0], descr['total'][1], req))
             pending.append((dict(descr, request=req, what='tiled get_volume(sub) affine/shape', layer='L0'), impl_volume_obs(sts, sub)))
+
+
+# ---------------------------------------------------------------------------------------------- stream: tiledpos (user-placed tiled)
+def build_tiledpos_case(ctx, idx):
+    """A tiled segmentation the user places: same orientation / pixel spacing / matrix shape as the source (and often the
+    same tile size), origin equal to the source's or different in exactly ONE coordinate (x only, y only, z only) or in
+    all; placement by a single PlanePositionSequence or by a SLIDE volume with the source's orientation."""
+    import highdicom as hd
+    from gen.sources import seg_description, slide_image
+    r = ctx.rng('tiledpos', idx)
+    nr = ctx.np_rng('tiledpospix', idx)
+    total_r, total_c = r.randint(2, 9), r.randint(2, 9)
+    str_, stc = r.randint(1, 4), r.randint(1, 4)              # tile size of the source
+    same_tile = r.random() < 0.6
+    tr, tc = (str_, stc) if same_tile else (r.randint(1, 4), r.randint(1, 4))
+    src_ps = (r.choice(SPACINGS), r.choice(SPACINGS))
+    src_origin = [F(r.randint(-400, 400), 8), F(r.randint(-400, 400), 8), F(0)]
+    sd, _, _ = rand_direction(r, 0)
+    rowcos, colcos = _col(sd, 2), _col(sd, 1)
+    src, _ = slide_image(total_r, total_c, str_, stc, origin=[float(x) for x in src_origin],
+                         pixel_spacing=[float(x) for x in src_ps], orientation=[float(x) for x in rowcos + colcos])
+    delta_mode = r.choice(['none', 'x', 'y', 'z', 'z', 'all'])
+    d = [F(r.choice([-24, -3, -1, 1, 2, 17]), 8) for _ in range(3)]
+    delta = {'none': [0, 0, 0], 'x': [d[0], 0, 0], 'y': [0, d[1], 0], 'z': [0, 0, d[2]], 'all': d}[delta_mode]
+    origin = [a + b for a, b in zip(src_origin, delta)]
+    placed = r.choice(['plane_positions', 'volume'])
+    seg_type = r.choice(['BINARY', 'LABELMAP', 'FRACTIONAL'])
+    nseg = r.choice([1, 2])
+    tiled_full = r.random() < 0.4
+    omit = (not tiled_full) and r.random() < 0.6
+    mask = (nr.random((1, total_r, total_c)) < r.choice([0.2, 0.6])) * nr.integers(1, nseg + 1, size=(1, total_r, total_c))
+    mask = mask.astype(np.uint8)
+    mask[0, 0, 0] = 1
+    mask[0, total_r - 1, total_c - 1] = nseg
+    descr = {'stream': 'tiledpos', 'idx': idx, 'seed': ctx.seed, 'total': [total_r, total_c], 'tile': [tr, tc], 'type': seg_type,
+             'nseg': nseg, 'from_volume': placed == 'volume', 'tiled_full': tiled_full, 'omit': omit, 'dir': 'src-oriented',
+             'exact': True, 'h': 0, 'placed': placed, 'origin_delta': delta_mode, 'same_tile_size': same_tile,
+             'source_origin': [rstr(x) for x in src_origin], 'origin': [rstr(x) for x in origin],
+             'remainder': [total_r % tr, total_c % tc]}
+    kw = dict(tile_pixel_array=True, tile_size=(tr, tc), omit_empty_frames=omit,
+              dimension_organization_type='TILED_FULL' if tiled_full else 'TILED_SPARSE')
+    geo = (rowcos, colcos, src_ps, [(origin, mask[0].astype(np.int64))])
+    descs = [seg_description(i + 1) for i in range(nseg)]
+    if placed == 'volume':
+        vol = hd.Volume.from_attributes(array=mask.copy(), image_position=[float(x) for x in origin],
+                                        image_orientation=[float(x) for x in rowcos + colcos],
+                                        pixel_spacing=[float(x) for x in src_ps], spacing_between_slices=1.0,
+                                        coordinate_system='SLIDE', frame_of_reference_uid=src.FrameOfReferenceUID)
+        va = frac_affine(vol.affine)
+        # what the volume says about itself (column 0 = right-handed normal, unit spacing) for the storeTiled model
+        descr.update(directions=[[rstr(va[i][0]) for i in range(3)], [rstr(x) for x in colcos], [rstr(x) for x in rowcos]],
+                     spacing=['1', rstr(src_ps[0]), rstr(src_ps[1])], position=[rstr(x) for x in origin])
+        mk = lambda: hd.seg.Segmentation([src], vol, seg_type, descs, **kw, **_seg_kw())  # noqa: E731
+    else:
+        pp = [hd.PlanePositionSequence('SLIDE', [float(x) for x in origin], pixel_matrix_position=(1, 1))]
+        mk = lambda: hd.seg.Segmentation([src], mask.copy(), seg_type, descs, plane_positions=pp, **kw, **_seg_kw())  # noqa: E731
+    return descr, geo, mask, mk
+
+
+def run_tiledpos(ctx, reqs, pending):
+    for idx in range(ctx.n(150, 1500)):
+        descr, geo, mask, mk = build_tiledpos_case(ctx, idx)
+        _guard(ctx, descr, check_tiled_case, ctx, descr, geo, mask, mk, reqs, pending)
 
 
 # ---------------------------------------------------------------------------------------------- stream: pyramid
@@ -1473,9 +1640,11 @@ def witness_case(ctx, case, reqs, pending):
 # ---------------------------------------------------------------------------------------------- run / replay
 STREAMS = {
     'vol': (build_vol_case, lambda ctx, c, rq, pd: check_vol_case(ctx, c[0], c[1], c[2], c[3], rq, pd)),
+    'place': (build_place_case, lambda ctx, c, rq, pd: check_vol_case(ctx, c[0], c[1], c[2], c[3], rq, pd)),
     'src': (build_src_case, lambda ctx, c, rq, pd: check_src_case(ctx, c[0], c[1], c[2], c[3], c[4], rq, pd)),
     'img': (build_img_case, lambda ctx, c, rq, pd: check_img_case(ctx, c[0], c[1], c[2], c[3], rq, pd)),
     'tiled': (build_tiled_case, lambda ctx, c, rq, pd: check_tiled_case(ctx, c[0], c[1], c[2], c[3], rq, pd)),
+    'tiledpos': (build_tiledpos_case, lambda ctx, c, rq, pd: check_tiled_case(ctx, c[0], c[1], c[2], c[3], rq, pd)),
     'pyr': (build_pyr_case, lambda ctx, c, rq, pd: check_pyr_case(ctx, c[0], c[1], c[2], rq, pd)),
 }
 
@@ -1525,9 +1694,11 @@ def run(ctx):
     run_helpers(ctx, reqs, pending)
     run_slice_requests_exhaustive(ctx, reqs, pending)
     run_vol(ctx, reqs, pending)
+    run_place(ctx, reqs, pending)
     run_src(ctx, reqs, pending)
     run_img(ctx, reqs, pending)
     run_tiled(ctx, reqs, pending)
+    run_tiledpos(ctx, reqs, pending)
     run_pyr(ctx, reqs, pending)
     answers = ctx.model(reqs)
     if answers is None:
